@@ -182,10 +182,15 @@ macro_rules! impl_conversion_to_float {
                     } else if top_bit < $lb {
                         Err(ConversionError::LossOfPrecision)
                     } else {
-                        match <$t>::encode(
-                            value.0.numerator.try_into().unwrap(),
-                            -(den_bits as i16),
-                        ) {
+                        // an integer can have trailing zeros, which belong to the exponent; what is left
+                        // of the numerator has to fit the mantissa type
+                        let shift = value.0.numerator.trailing_zeros().unwrap();
+                        let exp = shift as isize - den_bits as isize;
+                        let man = match (value.0.numerator >> shift).try_into() {
+                            Ok(man) => man,
+                            Err(_) => return Err(ConversionError::LossOfPrecision),
+                        };
+                        match <$t>::encode(man, exp as i16) {
                             Exact(v) => Ok(v),
                             Inexact(v, _) => {
                                 if v.is_infinite() {
